@@ -130,7 +130,10 @@ def run(oc, tier, seed, model_available, escalate):
         open(e2, "wb").write(bytes(dm))
         open(i2, "wb").write(bytes(di))
         with fx.OpsRecorder(27) as rec:
-            rc = repair_main(["-i", e2, "--index", i2, "-o", out, "-t", "0", "-f", "--ecc_algo", str(P.algo), "--silent"])
+            # option spellings: quiet; verbose with a log file (every record is then described in the log); verbose on the console
+            optv = rng.choice([["--silent"], ["--silent"], ["--verbose", "--silent", "-l", os.path.join(d, "recover.log")], ["--verbose"]])
+            oc.count("recover options: " + " ".join(o for o in optv if o.startswith("--")))
+            rc = repair_main(["-i", e2, "--index", i2, "-o", out, "-t", "0", "-f", "--ecc_algo", str(P.algo)] + optv)
         rep = open(out, "rb").read() if os.path.exists(out) else None
         # expected: every destroyed marker whose record is usable is restored; the others keep their damaged bytes; nothing else changes
         exp = bytearray(dm)
